@@ -75,6 +75,7 @@ type run struct {
 	revertsUndoing, sharedReleased, storeWrites, arenaWrites, readAfterPersist int
 	sharedSeen                                                                map[string]bool
 	kept                                                                      map[int]*keptHandler
+	nextFaulty                                                                bool
 }
 
 func (r *run) open(root []byte) bool {
@@ -119,9 +120,13 @@ func execute(c *simkit.Ctx) bool {
 	prop := p.Property
 	for i := range p.Steps {
 		c.CurStep = i
+		r.nextFaulty = i+1 < len(p.Steps) && p.Steps[i+1].Fault == "get_error"
 		r.step(&p.Steps[i])
 		c.StepsDone++
-		if !c.Failed(prop) && c.Harness == "" {
+		// the oracle reads every account and code entry and thereby loads their trie paths into memory; it is
+		// skipped before a step with an armed read error, so that the faulty step still has disk reads to fail
+		nextFaulty := r.nextFaulty
+		if !c.Failed(prop) && c.Harness == "" && !nextFaulty {
 			r.checkCode()
 		}
 		if c.Failed(prop) || c.Harness != "" {
@@ -343,15 +348,21 @@ func (r *run) step(st *simkit.Step) {
 	if fault {
 		r.se.Store.ClearCache()
 		if st.FaultAt > 0 && len(st.B) == 0 && (st.Op == "save" || st.Op == "resave") {
-			// without storage writes the order of disk reads of a step does not depend on Go map iteration:
-			// only the n-th read fails (reaches reads deep inside the operation, e.g. of a code entry)
-			r.disk.Arm("get_error", st.FaultAt-1)
+			// without storage writes the order of disk reads of SaveAccount does not depend on Go map iteration:
+			// only its n-th read fails (reaches reads deep inside the operation, e.g. of a code entry). Armed right
+			// before SaveAccount (armNth), after the account was loaded.
 		} else {
 			r.disk.ArmAll("get_error")
 		}
 	}
 	defer r.disk.Disarm()
 	fired := func() bool { return c.Faults["get_error"] > firedBefore }
+	armNth := func() {
+		if fault && st.FaultAt > 0 && len(st.B) == 0 {
+			r.se.Store.ClearCache()
+			r.disk.Arm("get_error", (st.FaultAt-1)%4)
+		}
+	}
 	jlen0 := 0
 	var root0 []byte
 	if st.Op == "save" || st.Op == "remove" || st.Op == "resave" {
@@ -475,8 +486,15 @@ func (r *run) step(st *simkit.Step) {
 				return
 			}
 		}
+		armNth()
 		err = adb.SaveAccount(ua)
 		c.Eventf("%d save acct=%d %v pairs=%d -> err=%v", c.CurStep, st.T, st.I, len(st.B)/2, err != nil)
+		if err == nil && fired() {
+			c.Probe("save_succeeded_although_a_read_failed")
+		}
+		if fired() {
+			c.Probe("read_error_fired_in_save")
+		}
 		if err != nil {
 			if fired() {
 				r.failedStep("SaveAccount")
@@ -520,6 +538,7 @@ func (r *run) step(st *simkit.Step) {
 		if k == nil {
 			return
 		}
+		armNth()
 		err := adb.SaveAccount(k.ua)
 		c.Eventf("%d resave acct=%d -> err=%v", c.CurStep, st.T, err != nil)
 		if err != nil {
@@ -626,7 +645,9 @@ func (r *run) step(st *simkit.Step) {
 		r.committed = r.m.clone()
 		r.snaps = nil
 		c.FPBytes(rh)
-		r.checkAll("after Commit", false)
+		if !r.nextFaulty {
+			r.checkAll("after Commit", false)
+		}
 		if r.storeWrites > 0 {
 			r.readAfterPersist++
 		}
@@ -640,7 +661,9 @@ func (r *run) step(st *simkit.Step) {
 		}
 		r.m = r.committed.clone()
 		r.snaps = nil
-		r.checkAll("after restart", false)
+		if !r.nextFaulty {
+			r.checkAll("after restart", false)
+		}
 		if r.storeWrites > 0 {
 			r.readAfterPersist++
 		}
